@@ -191,7 +191,7 @@ class FlatGen:
         if not self.vectors and not self.matrices:
             return self.eq_scalar()
         style = r.choice(["vec", "vec", "shift", "idxarith", "matcol", "matrow", "der", "reverse", "stride", "twoshifts",
-                          "callshifts", "prodidx"])
+                          "callshifts", "prodidx", "dershifts"])
         n = self.vlen
         i = r.choice("ijk")
         if style in ("vec", "der") and self.vectors:
@@ -228,6 +228,14 @@ class FlatGen:
             self.note_ops(g)
             self.m["eqs"].append(("for", i, num(2), None, num(n - 1), [("eq", idx(v, var(i)), rhs)]))
             self.tags.add("core:for-two-computed-subscripts-of-one-array")
+        elif style == "dershifts" and self.vectors and n >= 2:
+            # derivatives of two different elements of one array in one loop body (a box scheme): der(w[i]) and der(w[i + 1])
+            v = r.choice(self.vectors)
+            w = r.choice(self.vectors)
+            self.states.add(w)
+            lhs = ("bin", r.choice(("+", "-")), ("der", idx(w, var(i))), ("bin", "*", num(r.randint(2, 5)), ("der", idx(w, ("bin", "+", var(i), num(1))))))
+            self.m["eqs"].append(("for", i, num(1), None, num(n - 1), [("eq", lhs, ("bin", "*", num(r.randint(2, 5)), idx(v, var(i))))]))
+            self.tags.add("core:for-der-of-two-elements-of-one-array")
         elif style == "callshifts" and self.vectors and n >= 2:
             # the same user function called twice in one loop body on elements of one array at different offsets
             v = r.choice(self.vectors)
@@ -603,6 +611,15 @@ class FlatGen:
             for fn, tgt in order:
                 self.m["eqs"].append(("eq", var(tgt), ("call", fn, [var(c), num(r.randint(2, 5))])))
             self.tags.add("core:functions-with-equal-short-names-in-different-packages")
+        if r.random() < 0.1 and len(self.scalars) >= 3:
+            # two literals that differ beyond the sixth significant digit (time stamps, coordinates)
+            l1, l2 = r.choice([(12345678, 12345679), (1234567.0, 1234568.0), (3.14159265, 3.14159), (101324.75, 101325.25)])
+            a, b, c = r.sample(self.scalars, 3)
+            self.m["eqs"].append(("eq", var(a), ("bin", "-", var(c), num(l1))))
+            self.m["eqs"].append(("eq", var(b), ("bin", "+", ("bin", "*", num(0.5), var(c)), num(l2))))
+            if r.random() < 0.5:
+                self.m["ieqs"].append(("eq", var(c), num(l2)))
+            self.tags.add("core:literals-differing-beyond-the-sixth-significant-digit")
         if r.random() < 0.35:
             for _ in range(r.randint(1, 2)):
                 self.eq_initial()
